@@ -1,11 +1,136 @@
+import OdmlModel.Model.Conv
 import Driver.Util
 import Driver.Loop
 open Lean Drv
 
 namespace DrvC15
+open Conv
 
-/-- Stub: replaced when the model of C15 is built. -/
-def handle (_j : Json) : Except String Json := throw "model of C15 not built"
+/-- tree = [tag, [[key, value] …], text, [kids …]] -/
+partial def decXml (j : Json) : Except String Xml :=
+  match j with
+  | .arr #[.str t, .arr attrs, .str x, .arr kids] => do
+    let as ← attrs.toList.mapM (fun a =>
+      match a with
+      | .arr #[.str k, .str v] => pure (k, v.toList)
+      | _ => throw "bad attribute")
+    let ks ← kids.toList.mapM decXml
+    pure (.elem t as x.toList ks)
+  | _ => throw "bad tree"
+
+partial def encXml : Xml → Json
+  | .elem t a x ks =>
+    jarr [jstr t, jarr (a.map (fun p => jarr [jstr p.1, jchars p.2])), jchars x, jarr (ks.map encXml)]
+
+def encPid (p : PropId) : Json := jarr [jchars p.sname, jchars p.stype, jchars p.pname]
+
+def encLog : LogE → Json
+  | .unnamedProp => jobj [("k", "unnamedProp")]
+  | .alreadyExported pid tag kept dropped =>
+    jobj [("k", "alreadyExported"), ("pid", encPid pid), ("tag", jstr tag), ("kept", jchars kept),
+          ("text", jchars dropped)]
+  | .binaryReplaced pid => jobj [("k", "binaryReplaced"), ("pid", encPid pid)]
+  | .omittedValueAttr pid tag text =>
+    jobj [("k", "omittedValueAttr"), ("pid", encPid pid), ("tag", jstr tag), ("text", jchars text)]
+  | .omittedPropAttr pid tag text =>
+    jobj [("k", "omittedPropAttr"), ("pid", encPid pid), ("tag", jstr tag), ("text", jchars text)]
+  | .omittedSecAttr sname tag text =>
+    jobj [("k", "omittedSecAttr"), ("sname", jchars sname), ("tag", jstr tag), ("text", jchars text)]
+  | .omittedDocAttr tag text =>
+    jobj [("k", "omittedDocAttr"), ("tag", jstr tag), ("text", jchars text)]
+
+def encOptFields : Option (List (List Char)) → Json
+  | none => Json.null
+  | some fs => jarr (fs.map jchars)
+
+def encProp (p : PropC) : Json :=
+  jobj [("name", jchars p.name), ("values", encOptFields p.values), ("unit", jchars p.unit),
+        ("uncertainty", jchars p.uncertainty), ("dtype", jchars p.dtype),
+        ("value_origin", jchars p.valueOrigin), ("definition", jchars p.definition),
+        ("reference", jchars p.reference), ("dependency", jchars p.dependency),
+        ("dependency_value", jchars p.dependencyValue), ("id", jchars p.id)]
+
+partial def encSec : SecC → Json
+  | .mk n t d i ps ss =>
+    jobj [("name", jchars n), ("type", jchars t), ("definition", jchars d), ("id", jchars i),
+          ("props", jarr (ps.map encProp)), ("secs", jarr (ss.map encSec))]
+
+def encDoc (d : DocC) : Json := jobj [("id", jchars d.id), ("secs", jarr (d.secs.map encSec))]
+
+/-- typed 1.0 dict documents: see `Conv.DDoc` -/
+def decScalar (j : Json) : Except String DScalar :=
+  match j with
+  | .null => pure .null
+  | .str s => pure (.str s.toList)
+  | .num n => if n.exponent == 0 then pure (.int n.mantissa) else throw "non-int number"
+  | _ => throw "bad scalar"
+
+def decPairs (j : Json) (f : Json → Except String α) : Except String (List (String × α)) :=
+  match j with
+  | .arr xs => xs.toList.mapM (fun p =>
+      match p with
+      | .arr #[.str k, v] => do pure (k, ← f v)
+      | _ => throw "bad pair")
+  | _ => throw "bad pairs"
+
+def decDVal (j : Json) : Except String DVal := do pure ⟨← decPairs j decScalar⟩
+
+def decDPItem (j : Json) : Except String DPItem :=
+  match j with
+  | .arr #[.str "attr", .str k, v] => do pure (.attr k (← decScalar v))
+  | .arr #[.str "values", .arr vs] => do pure (.values (← vs.toList.mapM decDVal))
+  | _ => throw "bad property item"
+
+def decDProp (j : Json) : Except String DProp :=
+  match j with
+  | .arr xs => do pure ⟨← xs.toList.mapM decDPItem⟩
+  | _ => throw "bad property"
+
+partial def decDSec (j : Json) : Except String DSec :=
+  match j with
+  | .arr xs => do
+    let items ← xs.toList.mapM (fun i =>
+      match i with
+      | .arr #[.str "attr", .str k, v] => do pure (DSItem.attr k (← decScalar v))
+      | .arr #[.str "props", .arr ps] => do pure (DSItem.props (← ps.toList.mapM decDProp))
+      | .arr #[.str "secs", .arr ss] => do pure (DSItem.secs (← ss.toList.mapM decDSec))
+      | _ => throw "bad section item")
+    pure (.mk items)
+  | _ => throw "bad section"
+
+def handle (j : Json) : Except String Json := do
+  let op ← getStr j "op"
+  match op with
+  | "convert" | "dict" =>
+    let fresh := (← getStr j "fresh").toList
+    let x ← (if op == "dict" then do
+               let d ← decDSec (← getVal j "doc")
+               pure (docToTree d)
+             else do
+               let tj ← getVal j "tree"
+               decXml tj)
+    let t := convertTree fresh x
+    pure (jobj [
+      ("source", encXml x),
+      ("raises", jbool (raises x)),
+      ("shape", jbool (Shape10 x)),
+      ("wf", jbool (WF10 x)),
+      ("plain", jbool (PlainValues x)),
+      ("noclash", jbool (NoSuffixClash x)),
+      ("tree", encXml t),
+      ("log", jarr ((convertLog x).map encLog)),
+      ("accepts", jbool (readerAccepts t)),
+      ("read", encDoc (readDoc t)),
+      ("spec", encDoc (content10 fresh x))])
+  | "csv" => pure (encOptFields (fromCsv (← getStr j "s").toList))
+  | "uuid" =>
+    pure (match parseUuid (← getStr j "s").toList with
+          | some u => jchars u
+          | none => Json.null)
+  | "outname" => pure (jchars (outName (← getStr j "s").toList))
+  | "tables" =>
+    pure (jobj [("version_map", jarr (versionMap.map (fun p => jarr [jstr p.1, jstr p.2])))])
+  | _ => throw s!"unknown op {op}"
 
 end DrvC15
 
